@@ -229,11 +229,13 @@ package store
 //@   requires object.treeWF(nodes)
 //@   decreases object.height(nodes)
 //@   ensures [ok] err == nil
-//@   ensures [sound] {C05,C07} forall j int :: 0 <= j && j < len(es) ==> es[j] != nil && (exists q string, n *object.Node {splitHead(q, "/"), n.Children} :: object.denotes(nodes, q, n) && len(n.Children) == 0 && string(es[j].Path) == jn(rootName, q) && string(es[j].Hash) == string(n.Hash))
-//@   ensures [complete] {C05,C07} forall q string, n *object.Node :: object.denotes(nodes, q, n) && len(n.Children) == 0 ==> exists j int :: 0 <= j && j < len(es) && string(es[j].Path) == jn(rootName, q) && string(es[j].Hash) == string(n.Hash)
+//@   ensures [nonnil] forall j int :: 0 <= j && j < len(es) ==> es[j] != nil
+//@   ensures [sound] {C05,C07} object.validNames(nodes) ==> forall j int :: 0 <= j && j < len(es) ==> es[j] != nil && (exists q string, n *object.Node {splitHead(q, "/"), n.Children} :: object.denotes(nodes, q, n) && len(n.Children) == 0 && string(es[j].Path) == jn(rootName, q) && string(es[j].Hash) == string(n.Hash))
+//@   ensures [complete] {C05,C07} object.validNames(nodes) ==> forall q string, n *object.Node :: object.denotes(nodes, q, n) && len(n.Children) == 0 ==> exists j int :: 0 <= j && j < len(es) && string(es[j].Path) == jn(rootName, q) && string(es[j].Hash) == string(n.Hash)
 //@   loop 0:
-//@     invariant forall j int :: 0 <= j && j < len(entries) ==> entries[j] != nil && (exists q string, n *object.Node {splitHead(q, "/"), n.Children} :: isLeafPath(nodes, it, q, n) && len(n.Children) == 0 && string(entries[j].Path) == jn(rootName, q) && string(entries[j].Hash) == string(n.Hash))
-//@     invariant forall q string, n *object.Node :: isLeafPath(nodes, it, q, n) && len(n.Children) == 0 ==> exists j int :: 0 <= j && j < len(entries) && string(entries[j].Path) == jn(rootName, q) && string(entries[j].Hash) == string(n.Hash)
+//@     invariant forall j int :: 0 <= j && j < len(entries) ==> entries[j] != nil
+//@     invariant object.validNames(nodes) ==> forall j int :: 0 <= j && j < len(entries) ==> entries[j] != nil && (exists q string, n *object.Node {splitHead(q, "/"), n.Children} :: isLeafPath(nodes, it, q, n) && len(n.Children) == 0 && string(entries[j].Path) == jn(rootName, q) && string(entries[j].Hash) == string(n.Hash))
+//@     invariant object.validNames(nodes) ==> forall q string, n *object.Node :: isLeafPath(nodes, it, q, n) && len(n.Children) == 0 ==> exists j int :: 0 <= j && j < len(entries) && string(entries[j].Path) == jn(rootName, q) && string(entries[j].Hash) == string(n.Hash)
 
 // ---- staged changes: index against a tree
 
@@ -244,24 +246,29 @@ package store
 //@     || (d.Dt == diffModified && (exists i int :: 0 <= i && i < len(idx.Entries) && d.Entry == idx.Entries[i]) && (exists q string, n *object.Node {splitHead(q, "/"), n.Children} :: leafIn(cs, q, n) && string(d.Entry.Path) == q && string(d.Entry.Hash) != string(n.Hash)))
 //@     || (d.Dt == diffNew && (exists i int :: 0 <= i && i < len(idx.Entries) && d.Entry == idx.Entries[i]) && (forall q string, n *object.Node :: leafIn(cs, q, n) ==> q != string(d.Entry.Path))))
 
+//@ pred goitTree(cs) := object.validNames(cs) && object.uniqueTree(cs)
+
 //@ func Index.DiffWithTree
 //@   returns ds, err
 //@   requires wfIndex(idx)
-//@   requires tree != nil && object.treeWF(tree.Children) && object.uniqueTree(tree.Children)
+//@   requires tree != nil && object.treeWF(tree.Children)
 //@   ensures [ok] err == nil
-//@   ensures [sound] {C07} forall d int :: 0 <= d && d < len(ds) ==> diffOK(idx, tree.Children, ds[d])
-//@   ensures [deleted] {C07} forall q string, n *object.Node :: leafIn(tree.Children, q, n) && !tracked(idx, q) ==> exists d int :: 0 <= d && d < len(ds) && ds[d].Dt == diffDelete && string(ds[d].Entry.Path) == q
-//@   ensures [modified] {C07} forall q string, n *object.Node, i int :: leafIn(tree.Children, q, n) && 0 <= i && i < len(idx.Entries) && string(idx.Entries[i].Path) == q && string(idx.Entries[i].Hash) != string(n.Hash) ==> exists d int :: 0 <= d && d < len(ds) && ds[d].Dt == diffModified && ds[d].Entry == idx.Entries[i]
-//@   ensures [new] {C07} forall i int :: 0 <= i && i < len(idx.Entries) && (forall q string, n *object.Node :: leafIn(tree.Children, q, n) ==> q != string(idx.Entries[i].Path)) ==> exists d int :: 0 <= d && d < len(ds) && ds[d].Dt == diffNew && ds[d].Entry == idx.Entries[i]
+//@   ensures [nonnil] forall d int :: 0 <= d && d < len(ds) ==> ds[d] != nil && ds[d].Entry != nil
+//@   ensures [sound] {C07} goitTree(tree.Children) ==> forall d int :: 0 <= d && d < len(ds) ==> diffOK(idx, tree.Children, ds[d])
+//@   ensures [deleted] {C07} goitTree(tree.Children) ==> forall q string, n *object.Node :: leafIn(tree.Children, q, n) && !tracked(idx, q) ==> exists d int :: 0 <= d && d < len(ds) && ds[d].Dt == diffDelete && string(ds[d].Entry.Path) == q
+//@   ensures [modified] {C07} goitTree(tree.Children) ==> forall q string, n *object.Node, i int :: leafIn(tree.Children, q, n) && 0 <= i && i < len(idx.Entries) && string(idx.Entries[i].Path) == q && string(idx.Entries[i].Hash) != string(n.Hash) ==> exists d int :: 0 <= d && d < len(ds) && ds[d].Dt == diffModified && ds[d].Entry == idx.Entries[i]
+//@   ensures [new] {C07} goitTree(tree.Children) ==> forall i int :: 0 <= i && i < len(idx.Entries) && (forall q string, n *object.Node :: leafIn(tree.Children, q, n) ==> q != string(idx.Entries[i].Path)) ==> exists d int :: 0 <= d && d < len(ds) && ds[d].Dt == diffNew && ds[d].Entry == idx.Entries[i]
 //@   loop 0:
-//@     invariant forall d int :: 0 <= d && d < len(diffEntries) ==> diffOK(idx, tree.Children, diffEntries[d])
+//@     invariant forall d int :: 0 <= d && d < len(diffEntries) ==> diffEntries[d] != nil && diffEntries[d].Entry != nil
+//@     invariant goitTree(tree.Children) ==> forall d int :: 0 <= d && d < len(diffEntries) ==> diffOK(idx, tree.Children, diffEntries[d])
 //@     invariant forall j int :: 0 <= j && j < it && !tracked(idx, string(gotEntries[j].Path)) ==> exists d int :: 0 <= d && d < len(diffEntries) && diffEntries[d].Dt == diffDelete && string(diffEntries[d].Entry.Path) == string(gotEntries[j].Path)
 //@     invariant forall j int, i int :: 0 <= j && j < it && 0 <= i && i < len(idx.Entries) && string(idx.Entries[i].Path) == string(gotEntries[j].Path) && string(idx.Entries[i].Hash) != string(gotEntries[j].Hash) ==> exists d int :: 0 <= d && d < len(diffEntries) && diffEntries[d].Dt == diffModified && diffEntries[d].Entry == idx.Entries[i]
 //@   loop 1:
-//@     invariant forall d int :: 0 <= d && d < len(diffEntries) ==> diffOK(idx, tree.Children, diffEntries[d])
+//@     invariant forall d int :: 0 <= d && d < len(diffEntries) ==> diffEntries[d] != nil && diffEntries[d].Entry != nil
+//@     invariant goitTree(tree.Children) ==> forall d int :: 0 <= d && d < len(diffEntries) ==> diffOK(idx, tree.Children, diffEntries[d])
 //@     invariant forall j int :: 0 <= j && j < len(gotEntries) && !tracked(idx, string(gotEntries[j].Path)) ==> exists d int :: 0 <= d && d < len(diffEntries) && diffEntries[d].Dt == diffDelete && string(diffEntries[d].Entry.Path) == string(gotEntries[j].Path)
 //@     invariant forall j int, i int :: 0 <= j && j < len(gotEntries) && 0 <= i && i < len(idx.Entries) && string(idx.Entries[i].Path) == string(gotEntries[j].Path) && string(idx.Entries[i].Hash) != string(gotEntries[j].Hash) ==> exists d int :: 0 <= d && d < len(diffEntries) && diffEntries[d].Dt == diffModified && diffEntries[d].Entry == idx.Entries[i]
-//@     invariant forall i int :: 0 <= i && i < it && (forall q string, n *object.Node :: leafIn(tree.Children, q, n) ==> q != string(idx.Entries[i].Path)) ==> exists d int :: 0 <= d && d < len(diffEntries) && diffEntries[d].Dt == diffNew && diffEntries[d].Entry == idx.Entries[i]
+//@     invariant goitTree(tree.Children) ==> forall i int :: 0 <= i && i < it && (forall q string, n *object.Node :: leafIn(tree.Children, q, n) ==> q != string(idx.Entries[i].Path)) ==> exists d int :: 0 <= d && d < len(diffEntries) && diffEntries[d].Dt == diffNew && diffEntries[d].Entry == idx.Entries[i]
 
 // ---- HEAD
 
